@@ -34,7 +34,25 @@ def refinement(*conditions: ConditionType) -> SymbolicExpression[T]:
     new_conditions_root = ExceptIf(SymbolicExpression._current_parent_(), new_branch)
     new_branch._node_.weight = RDREdge.Refinement
     new_conditions_root._parent_ = prev_parent
+    _replace_operand(prev_parent, current_node, new_conditions_root)
     return new_conditions_root.right
+
+
+def _replace_operand(
+    parent: SymbolicExpression, old: SymbolicExpression, new: SymbolicExpression
+) -> None:
+    """
+    Make a binary parent evaluate the new sub-tree in the position of the old one.
+
+    :param parent: The previous parent of the old node.
+    :param old: The node that was re-parented below the new node.
+    :param new: The new root of the sub-tree.
+    """
+    if isinstance(parent, BinaryOperator):
+        if parent.left is old:
+            parent.left = new
+        elif parent.right is old:
+            parent.right = new
 
 
 def alternative(*conditions: ConditionType) -> SymbolicExpression[T]:
@@ -79,13 +97,16 @@ def alternative_or_next(
     """
     new_branch = chained_logic(AND, *conditions)
     current_node = SymbolicExpression._current_parent_()
-    if isinstance(current_node._parent_, (Alternative, Next)):
-        current_node = current_node._parent_
-    elif (
-        isinstance(current_node._parent_, ExceptIf)
-        and current_node is current_node._parent_.left
-    ):
-        current_node = current_node._parent_
+    # the new branch is attached to the whole rule the current node heads: climb over the refinements of the current
+    # node and to the end of its else-if / also-if chain
+    while True:
+        parent = current_node._parent_
+        if isinstance(parent, (Alternative, Next)):
+            current_node = parent
+        elif isinstance(parent, ExceptIf) and current_node is parent.left:
+            current_node = parent
+        else:
+            break
     prev_parent = current_node._parent_
     current_node._parent_ = None
     if type_ == RDREdge.Alternative:
@@ -98,6 +119,5 @@ def alternative_or_next(
         )
     new_branch._node_.weight = type_
     new_conditions_root._parent_ = prev_parent
-    if isinstance(prev_parent, BinaryOperator):
-        prev_parent.right = new_conditions_root
+    _replace_operand(prev_parent, current_node, new_conditions_root)
     return new_conditions_root.right
